@@ -37,7 +37,11 @@ EXPLANATION = ("Theorems (Props/C13.lean, about the definitions drv_c13 runs; th
                "yielder's attached namespace), yield_eq_list_nexus (route level, both sides as the driver runs them: whenever the list op "
                "- reader, namespace not attached - reads the source, the yield op delivers the same trees and namespace labels; proved by a "
                "simulation of every successful non-attached run by the attached run, Theory/C13Sim.lean; still under noSetsBlocks, now "
-               "evaluated on the driver's own list run), "
+               "evaluated on the driver's own list run; one direction, success only; noSetsBlocks is an executable model predicate - driver "
+               "op nosets - evaluated on every generated NEXUS document: the share inside the theorem's domain is in input_distribution, "
+               "about 80 %; well-formed documents with a SETS/ASSUMPTIONS/CODONS block are outside every stream-level theorem), "
+               "attached_reader_simulates (the reader with an attached namespace - DataSet.get(taxon_namespace=), driver flags 11 - reproduces "
+               "every successful run of the reader without one, any factory, no SETS restriction; one direction), "
                "whole_eq_flatten, incremental_eq_whole (consequences of the reader being parametric in the tree-list factory, which is how the "
                "code is written: tree_list_factory is an argument), incremental_collection, dataset_eq_lists_partial (same exclude_chars on both "
                "sides only), offset_spec / offset_neg_spec / offset_default / offset_list_spec / offset_list_default / offsets_enumerate_whole / "
@@ -128,6 +132,19 @@ def classify(a, b):
         if dict(a, name=None) == dict(b, name=None):
             return "tree-name"
     return "route"
+
+
+CRASHES = (TypeError, AttributeError, IndexError, KeyError, NameError, ZeroDivisionError, RecursionError, AssertionError)
+
+
+def is_refusal(e):
+    """a deliberate refusal of a source: the documented error class of the readers (DataParseError and its subclasses,
+    incl. the tokenizer's) or another exception raised by library code (the NeXML reader raises plain `Exception`s, ElementTree
+    its ParseError); NOT a TypeError / AttributeError / IndexError / KeyError ... escaping from inside the reader"""
+    from dendropy.utility import error
+    if isinstance(e, error.DataParseError):
+        return True
+    return not isinstance(e, CRASHES)
 
 
 def err_name(e):
@@ -254,7 +271,9 @@ def split_table_from_tree(tree):
     return table
 
 
-def split_table_from_array(ta, i, rooted):
+def split_table_from_array(ta, i, rooted, allset_ids):
+    """per-tree record of the array through its public accessors (`len`, `get_split_bitmask_and_edge_tuple`);
+    allset_ids: the leaf taxa of the tree (for the complement of an unrooted split)"""
     ns = ta.taxon_namespace
     bit_taxon = {}
     for t in ns._taxa:
@@ -268,9 +287,10 @@ def split_table_from_array(ta, i, rooted):
             mask >>= 1
             b += 1
         return frozenset(s)
-    allset = members(ta._tree_leafset_bitmasks[i])
+    allset = frozenset(allset_ids)
+    splits, lengths = ta.get_split_bitmask_and_edge_tuple(i)
     table = {}
-    for split, ln in zip(ta._tree_split_bitmasks[i], ta._tree_edge_lengths[i]):
+    for split, ln in zip(splits, lengths):
         s = members(split)
         key = s if rooted else frozenset([s, allset - s])
         table[key] = table.get(key, Fraction(0)) + (Fraction(0) if ln is None else Fraction(ln))
@@ -337,7 +357,13 @@ def check_tree_routes(ctx, dendropy, doc, mode, tmpdir, full=True):
     try:
         with time_limit(ROUTE_TIMEOUT):
             ref = R.tree_list("data")
+    except Timeout:
+        case.fail("route-error", "TreeList.get", "does not finish within %d s" % ROUTE_TIMEOUT)
+        return None, "timeout"
     except Exception as e:
+        if not is_refusal(e):
+            case.fail("crash", "TreeList.get", "fails with %s (%s): not a parse error raised by the reader but an exception escaping from "
+                      "inside it" % (type(e).__name__, str(e)[:150]))
         return None, err_name(e)
     # (c) string = stream = path
     for how in ("file", "path"):
@@ -484,14 +510,9 @@ def check_tree_array(case, dendropy, R, src, schema, opts, ref):
         else:
             case.ctx.count("treearray_raises_on_uncomparable_trees:" + type(e).__name__)
         return
-    for attr in ("_tree_split_bitmasks", "_tree_leafset_bitmasks", "_tree_edge_lengths", "_tree_weights"):
-        if not hasattr(r[0], attr):
-            case.ctx.note("TreeArray has no attribute %s any more: its per-tree records are not compared" % attr)
-            case.ctx.count("treearray_records_unavailable")
-            return
     ta, tl = r
-    if len(ta._tree_split_bitmasks) != len(tl):
-        case.fail("route", "TreeArray.read", "records %d trees, TreeList.get delivers %d" % (len(ta._tree_split_bitmasks), len(tl)))
+    if len(ta) != len(tl):
+        case.fail("route", "TreeArray.read", "records %d trees, TreeList.get delivers %d" % (len(ta), len(tl)))
         return
     for i, tree in enumerate(tl):
         if not array_comparable(ref[i]):
@@ -499,7 +520,7 @@ def check_tree_array(case, dendropy, R, src, schema, opts, ref):
             continue
         case.ctx.count("treearray_trees_compared")
         want = split_table_from_tree(tree)
-        got = split_table_from_array(ta, i, bool(tree.is_rooted))
+        got = split_table_from_array(ta, i, bool(tree.is_rooted), leaf_label_sets(tree)[1])
         if got != want:
             names = {}
             for tx in list(ta.taxon_namespace._taxa) + [nd.taxon for nd in tree.leaf_node_iter() if nd.taxon is not None]:
@@ -514,8 +535,11 @@ def check_tree_array(case, dendropy, R, src, schema, opts, ref):
                       "array's namespace (%d vs %d splits; e.g. %s)" % (i, len(got), len(want), diff))
             return
         w = 1.0 if tree.weight is None else float(tree.weight)
-        if Fraction(ta._tree_weights[i]) != Fraction(w):
-            case.fail("route", "TreeArray.read", "weight of tree %d recorded as %s, the tree has %s" % (i, ta._tree_weights[i], tree.weight))
+        weights = getattr(ta, "_tree_weights", None)      # no public accessor for the per-tree weight
+        if weights is None:
+            case.ctx.count("treearray_weights_unavailable")
+        elif Fraction(weights[i]) != Fraction(w):
+            case.fail("route", "TreeArray.read", "weight of tree %d recorded as %s, the tree has %s" % (i, weights[i], tree.weight))
             return
 
 
@@ -529,8 +553,14 @@ def check_refused_by_list_only(ctx, dendropy, doc, kind="route-error"):
             with time_limit(ROUTE_TIMEOUT):
                 fn()
             ok.append(name)
-        except Exception:
-            pass
+        except Timeout:
+            Case(ctx, doc, "fresh").fail("route-error", name, "does not finish within %d s on a source TreeList.get refuses" % ROUTE_TIMEOUT,
+                                         probe="refused-by-list-only")
+        except Exception as e:
+            if not is_refusal(e):
+                Case(ctx, doc, "fresh").fail("crash", name, "fails with %s (%s) on a source TreeList.get refuses with a parse error: an "
+                                             "exception escaping from inside the reader, not a refusal" % (type(e).__name__, str(e)[:150]),
+                                             probe="refused-by-list-only")
     if ok:
         try:
             dendropy.TreeList.get(data=text, schema=schema, **opts)
@@ -582,8 +612,8 @@ def check_two_sources(case, dendropy, docA, docB, first, alone, schema, opts):
             ta.read_from_files([io.StringIO(docA["text"]), io.StringIO(docB["text"])], schema, **opts)
             return ta
         ta = case.attempt(name, arr, **extra)
-        if ta is not None and hasattr(ta, "_tree_split_bitmasks") and len(ta._tree_split_bitmasks) != len(want):
-            case.fail("route", name, "records %d trees, the two sources hold %d + %d" % (len(ta._tree_split_bitmasks), len(first), len(alone)), **extra)
+        if ta is not None and len(ta) != len(want):
+            case.fail("route", name, "records %d trees, the two sources hold %d + %d" % (len(ta), len(first), len(alone)), **extra)
 
 
 def check_shared_identity(ctx, dendropy, docA, docB, tmpdir):
@@ -639,9 +669,6 @@ def check_shared_identity(ctx, dendropy, docA, docB, tmpdir):
                 return
             key = nd.taxon.label if opts.get("case_sensitive_taxon_labels") else nd.taxon.label.lower()
             if by_label.setdefault(key, nd.taxon) is not nd.taxon:
-                both = (docA["text"] + docB["text"]).lower()
-                if "translate" in both and not re.search(r"begin\s+taxa", both):
-                    continue   # TRANSLATE in a file without TAXA block adds its labels behind the symbol mapper's back
                 case.fail("route", "TreeList.read after TreeList.get", "two Taxon objects with label %r in one namespace" % nd.taxon.label,
                           first=docA["text"])
                 return
@@ -916,9 +943,23 @@ def correspond(ctx, dendropy, doc, session, blocks_shape, refusal_only=False):
     if schema == "nexus":
         # the reader front end with an ATTACHED namespace and exclude_chars (the settings under which the theorems relate it
         # to the iterator): DataSet.get(taxon_namespace=, exclude_chars=True) runs exactly that
-        session.add(model_line("blocks", doc, toks, tail, flags="11"), "DataSet.get(attached namespace, exclude_chars)", case,
-                    impl_answer(lambda: impl_blocks(dendropy.DataSet.get(exclude_chars=True, taxon_namespace=dendropy.TaxonNamespace(), **kw))),
-                    canon_blocks)
+        att = impl_answer(lambda: impl_blocks(dendropy.DataSet.get(exclude_chars=True, taxon_namespace=dendropy.TaxonNamespace(), **kw)))
+        session.add(model_line("blocks", doc, toks, tail, flags="11"), "DataSet.get(attached namespace, exclude_chars)", case, att, canon_blocks)
+
+        def flat(a):
+            return a if "err" in a else {"trees": [t for b in a["blocks"] for t in b], "ident": a["ident"]}
+        # the configurations on the right-hand sides of yield_eq_list_nexus_partial / dataset_eq_lists_partial, on op `list`:
+        # reader into ONE list with an attached namespace resp. with character blocks parsed = those data sets, flattened
+        session.add(model_line("list", doc, toks, tail, flags="11"), "list @ attached namespace", case, flat(att), canon_list)
+        session.add(model_line("list", doc, toks, tail, flags="00"), "list @ exclude_chars=False", case,
+                    flat(impl_answer(lambda: impl_blocks(dendropy.DataSet.get(**kw)))), canon_list)
+        if not refusal_only:
+            # is the document inside the domain of the stream-level theorems?  (the predicate `noSetsBlocks` itself, on the list run)
+            def canon_nosets(j):
+                ctx.count("nexus_docs_in_domain_of_yield_eq_list_nexus(noSetsBlocks)" if j is True
+                          else "nexus_docs_outside_noSetsBlocks(correspondence only)")
+                return None
+            session.add(model_line("nosets", doc, toks, tail), "noSetsBlocks", case, None, canon_nosets)
     if refusal_only:
         # the reference route refuses the document: the model must refuse it on the same routes (kind of refusal compared)
         # (list / yield / dataset above carry every length and weight of the source; a single-tree answer would hide a
@@ -1063,9 +1104,7 @@ def one_document(ctx, dendropy, doc, tmpdir, session, full=True, kind=None):
              sample={"schema": doc["schema"], "text": doc["text"][:400], "opts": doc["opts"], "collections": shape},
              kind=kind or doc["schema"])
     ctx.count("trees", len(ref))
-    if doc["schema"] == "nexus":
-        ctx.count("nexus_docs_without_sets_blocks(reader_eq_yielder_partial applies)"
-                  if not re.search(r"(?i)begin\s+(sets|assumptions|codons)\b", doc["text"]) else "nexus_docs_with_sets_blocks(correspondence only)")
+
     if shape is not None:
         ctx.count("collections", len(shape))
     info = doc.get("info") or {}
@@ -1084,7 +1123,7 @@ def one_document(ctx, dendropy, doc, tmpdir, session, full=True, kind=None):
 def run(ctx):
     dendropy = __import__("dendropy")
     rng = ctx.rng
-    ctx.set_budget(40, 780)
+    ctx.set_budget(33, 780)
     tmpdir = tempfile.mkdtemp(prefix="c13-")
     session = ModelSession(ctx)
     try:
@@ -1165,8 +1204,11 @@ def replay(ctx, rec):
                 correspond(ctx, dendropy, doc, session, None if blocks is None else [len(b) for b in blocks])
         session.flush()
         if c.get("first") is not None and rec.get("kind"):
+            marks = {"ntax-counts-preexisting-taxa": "TooManyTaxaError", "taxon-numbers-follow-namespace-order": "appended trees differ"}
             for f in ctx.failures[n0:]:
-                f["kind"] = rec["kind"]       # a stored two-source witness names the class of its failure
+                # a stored two-source witness names the class of its failure; any OTHER failure on it keeps its own kind
+                if f["replay"].get("route") == "TreeList.read after TreeList.get" and marks.get(rec["kind"], "\0") in f["what"]:
+                    f["kind"] = rec["kind"]
         # keep only the failures of the recorded route, if the record names one
         if c.get("route"):
             keep = [f for f in ctx.failures if f["replay"].get("route") == c["route"]]
